@@ -105,7 +105,7 @@ func TestC06_ContentAddress(t *testing.T) {
 
 		// malformed encodings
 		raw := refMultihashBytes(alg, refDigest(alg, []byte(refJCS(v))))
-		kind := rapid.IntRange(0, 8).Draw(t, "malformed")
+		kind := rapid.IntRange(0, 9).Draw(t, "malformed")
 		var bad string
 		strict := true // must GetMultihashCode / IsComputedUsing reject it as well?
 		switch kind {
@@ -140,6 +140,9 @@ func TestC06_ContentAddress(t *testing.T) {
 			}
 			bad = want[:pos] + string(nc) + want[pos+1:]
 			strict = false
+		case 9: // line breaks inside or after the encoding (Go's base64 decoder skips CR and LF silently)
+			pos := rapid.IntRange(0, len(want)).Draw(t, "nlpos")
+			bad = want[:pos] + rapid.SampledFrom([]string{"\n", "\r", "\r\n", "\n\n"}).Draw(t, "nl") + want[pos:]
 		default: // non-canonical final character (same bytes, different string)
 			bad = nonCanonicalTail(want)
 			strict = false
